@@ -1,3 +1,96 @@
-From NP Require Import Base.
-Theorem placeholder_C03 : True. Proof. exact I. Qed.
-Print Assumptions placeholder_C03.
+(* C03 — element, flat, list and summary views describe the same data.
+   Every theorem: for EVERY physical layout p that is well-formed (wf_b: schema, offsets
+   monotone and in bounds, identical offsets windows, present rows have valid lists) and whose
+   missing rows hide no child values (norm_missing), with at least one chunk (what the
+   constructor guarantees), the modelled view equals a function of the ONE logical column
+   abs p.  No bound on rows, chunks, offsets base or list lengths. *)
+From Coq Require Import String List Arith Bool ZArith.
+Import ListNotations.
+From NP Require Import Base Values Arrow Abs Kernels ExtArray Logical Proofs_Views.
+
+Theorem C03_len : forall p, m_len p = spec_len (abs p).
+Proof. exact len_refines. Qed.
+Print Assumptions C03_len.
+
+Theorem C03_isna : forall p, m_isna p = spec_isna (abs p).
+Proof. exact isna_refines. Qed.
+Print Assumptions C03_isna.
+
+Theorem C03_list_lengths : forall p,
+  wf_b p = true -> norm_missing_all_b p = true -> chunks p <> [] ->
+  m_list_lengths p = Ok (spec_list_lengths (abs p)).
+Proof. intros p H N C. exact (list_lengths_refines p (wf_b_col_ok p H N) C). Qed.
+Print Assumptions C03_list_lengths.
+
+Theorem C03_flat_length : forall p,
+  wf_b p = true -> norm_missing_all_b p = true -> chunks p <> [] ->
+  m_flat_length p = Ok (spec_flat_length (abs p)).
+Proof. intros p H N C. exact (flat_length_refines p (wf_b_col_ok p H N) C). Qed.
+Print Assumptions C03_flat_length.
+
+(* np.diff(list_offsets) = per-row lengths, for the single-chunk branch (raw offsets of the
+   first field, whatever their base) and the multi-chunk branch (cumulative sum) alike *)
+Theorem C03_list_offsets : forall p,
+  wf_b p = true -> norm_missing_all_b p = true -> chunks p <> [] ->
+  res_map diffs (m_list_offsets p) = Ok (spec_offset_diffs (abs p)).
+Proof. intros p H N C. exact (list_offsets_refines p (wf_b_col_ok p H N) C). Qed.
+Print Assumptions C03_list_offsets.
+
+Theorem C03_get_list_index : forall p,
+  wf_b p = true -> norm_missing_all_b p = true -> chunks p <> [] ->
+  m_get_list_index p = Ok (spec_list_index (abs p)).
+Proof. intros p H N C. exact (get_list_index_refines p (wf_b_col_ok p H N) C). Qed.
+Print Assumptions C03_get_list_index.
+
+Theorem C03_field_names : forall p, chunks p <> [] -> m_field_names p = Ok (spec_field_names (abs p)).
+Proof. exact field_names_refines. Qed.
+Print Assumptions C03_field_names.
+
+(* the flat view: index = row i repeated len_i times (as repeat counts), every column = the
+   concatenation of that field's rows; missing rows contribute nothing *)
+Theorem C03_to_flat : forall p,
+  wf_b p = true -> norm_missing_all_b p = true -> chunks p <> [] -> NoDup (map fst (ctype p)) ->
+  m_to_flat p (map fst (ctype p)) = Ok (spec_offset_diffs (abs p), spec_flat (abs p)).
+Proof. intros p H N C D. exact (to_flat_refines p (wf_b_col_ok p H N) C D). Qed.
+Print Assumptions C03_to_flat.
+
+(* ListArray.flatten() of any well-formed list array = concatenation of its python lists *)
+Theorem C03_flatten : forall l n, wf_larr_b n l = true ->
+  la_flatten l = concat (map (@olist val) (la_lists l)).
+Proof. exact la_flatten_spec. Qed.
+Print Assumptions C03_flatten.
+
+(* The hypothesis norm_missing cannot be dropped: the faithful model (and the real code,
+   known finding KF-hidden-children) counts the hidden records of a missing row. *)
+Definition hidden_witness : chunked :=
+  {| ctype := [("a"%string, TI64)];
+     chunks := [ {| svalid := [true; false];
+                    sfields := [ {| fname := "a"%string; fty := TI64;
+                                    farr := {| offs := [0; 1; 2]; lvalid := [true; true];
+                                               child := [VInt 1; VInt 7] |} |} ] |} ] |}.
+Theorem C03_hidden_refuted : exists p,
+  wf_b p = true /\ chunks p <> [] /\ m_list_lengths p <> Ok (spec_list_lengths (abs p)).
+Proof. exists hidden_witness. split; [reflexivity|]. split; [discriminate|]. vm_compute. discriminate. Qed.
+Print Assumptions C03_hidden_refuted.
+
+(* non-vacuity: a sliced, two-chunk column with a missing and an empty row meets every hypothesis *)
+Definition sample_col : chunked :=
+  {| ctype := [("a"%string, TI64); ("b"%string, TF64)];
+     chunks := [ {| svalid := [true; false];
+                    sfields := [ {| fname := "a"%string; fty := TI64;
+                                    farr := {| offs := [2; 4; 4]; lvalid := [true; false];
+                                               child := [VInt 9; VInt 9; VInt 1; VInt 2; VInt 5] |} |};
+                                 {| fname := "b"%string; fty := TF64;
+                                    farr := {| offs := [2; 4; 4]; lvalid := [true; false];
+                                               child := [VTok 0; VTok 0; VTok 1; VNull] |} |} ] |};
+                 {| svalid := [true; true];
+                    sfields := [ {| fname := "a"%string; fty := TI64;
+                                    farr := {| offs := [0; 0; 3]; lvalid := [true; true];
+                                               child := [VInt 3; VInt 4; VNull] |} |};
+                                 {| fname := "b"%string; fty := TF64;
+                                    farr := {| offs := [0; 0; 3]; lvalid := [true; true];
+                                               child := [VTok 5; VTok 6; VTok 7] |} |} ] |} ] |}.
+Example C03_hypotheses_satisfiable :
+  wf_b sample_col = true /\ norm_missing_all_b sample_col = true /\ chunks sample_col <> []
+  /\ m_list_lengths sample_col = Ok [2; 0; 0; 3].
+Proof. split; [reflexivity|]. split; [reflexivity|]. split; [discriminate|reflexivity]. Qed.
